@@ -129,6 +129,7 @@ func run(c *runner.Ctx) {
 	nestedRuleReplaced(c)
 	embeddedAndUnknown(c)
 	lateNames(c)
+	unscopedOverCollections(c)
 	samePrintingTypes(c)
 	vals := valueMenu()
 	// (a function given for the call under the name of a structural rule - required, exist - is resolved like any other)
@@ -499,64 +500,76 @@ func lateNames(c *runner.Ctx) {
 	for _, viaTag := range []bool{true, false} {
 		for _, nested := range []bool{false, true} {
 			for _, perCallToo := range []bool{false, true} {
-				if !c.Take() {
-					continue
-				}
-				lateSeq++
-				name := fmt.Sprintf("late%s%d", strings.ToLower(c.Mode), lateSeq*64+c.Worker)
-				tag := reflect.StructTag("")
-				rm := valid.RM{"F": name + ",le=3"}
-				if viaTag {
-					tag = reflect.StructTag(`valid:"` + name + `,le=3"`)
-					rm = nil
-				}
-				inner := reflect.StructOf([]reflect.StructField{{Name: "F", Type: reflect.TypeOf(""), Tag: tag}})
-				src := reflect.New(inner)
-				src.Elem().Field(0).SetString("toolong")
-				top := src.Interface()
-				path := "F"
-				if nested {
-					outer := reflect.StructOf([]reflect.StructField{{Name: "In", Type: reflect.PtrTo(inner), Tag: `valid:"exist"`}})
-					o := reflect.New(outer)
-					o.Elem().Field(0).Set(src)
-					top = o.Interface()
-					path = ".In.F"
-					if !viaTag {
-						continue // a per-call rule set addresses the outermost struct only
+				// sharedFns: every call that brings no function for the name hands over the *same* function-table object, which
+				// holds one function under an unrelated name (an application-wide table of its own validators): the table is the
+				// caller's, and the name is looked up afresh - per call, then globally - on every call (round 12)
+				for _, sharedFns := range []bool{false, true} {
+					if !c.Take() {
+						continue
 					}
-				}
-				call := func(fns valid.Name2FnMap) string {
-					var err error
-					if rm != nil {
-						err = valid.StructForFns(top, rm, fns)
-					} else {
-						err = valid.StructForFns(top, nil, fns)
+					shared := valid.Name2FnMap{"unrelated_fn": mkFn("unrelated")}
+					lateSeq++
+					name := fmt.Sprintf("late%s%d", strings.ToLower(c.Mode), lateSeq*64+c.Worker)
+					tag := reflect.StructTag("")
+					rm := valid.RM{"F": name + ",le=3"}
+					if viaTag {
+						tag = reflect.StructTag(`valid:"` + name + `,le=3"`)
+						rm = nil
 					}
-					if err == nil {
-						return ""
+					inner := reflect.StructOf([]reflect.StructField{{Name: "F", Type: reflect.TypeOf(""), Tag: tag}})
+					src := reflect.New(inner)
+					src.Elem().Field(0).SetString("toolong")
+					top := src.Interface()
+					path := "F"
+					if nested {
+						outer := reflect.StructOf([]reflect.StructField{{Name: "In", Type: reflect.PtrTo(inner), Tag: `valid:"exist"`}})
+						o := reflect.New(outer)
+						o.Elem().Field(0).Set(src)
+						top = o.Interface()
+						path = ".In.F"
+						if !viaTag {
+							continue // a per-call rule set addresses the outermost struct only
+						}
 					}
-					return err.Error()
-				}
-				size := `"` + path + `" input "toolong", explain: it is more than 3 str-length`
-				unknown := `"` + path + `" valid "` + name + `" is not exist, You can call SetValidFn`
-				if !strings.Contains(path, ".") {
-					unknown = `valid "` + name + `" is not exist, You can call SetValidFn`
-				}
-				steps := []struct{ what, got, want string }{}
-				steps = append(steps, struct{ what, got, want string }{"before registration", call(nil), unknown + "; " + size})
-				valid.SetCustomerValidFn(name, mkFn("global-"+name))
-				steps = append(steps, struct{ what, got, want string }{"after registration", call(nil), `"` + path + `" input "toolong", explain: global-` + name + "; " + size})
-				if perCallToo {
-					steps = append(steps, struct{ what, got, want string }{"per-call definition wins", call(valid.Name2FnMap{name: mkFn("call-" + name)}), `"` + path + `" input "toolong", explain: call-` + name + "; " + size})
-				}
-				// the name is registered again with another function: the table as it is at call time decides
-				valid.SetCustomerValidFn(name, mkFn("global2-"+name))
-				steps = append(steps, struct{ what, got, want string }{"after re-registration", call(nil), `"` + path + `" input "toolong", explain: global2-` + name + "; " + size})
-				c.Done(true, len(steps))
-				for _, st := range steps {
-					if st.got != st.want {
-						c.Violation("late-registration/"+strings.ReplaceAll(st.what, " ", "-"), map[string]interface{}{"rule_name": name, "via_tag": viaTag, "nested": nested, "step": st.what, "expected": st.want, "actual": st.got})
-						break
+					call := func(fns valid.Name2FnMap) string {
+						var err error
+						if fns == nil && sharedFns {
+							fns = shared
+						}
+						if rm != nil {
+							err = valid.StructForFns(top, rm, fns)
+						} else {
+							err = valid.StructForFns(top, nil, fns)
+						}
+						if err == nil {
+							return ""
+						}
+						return err.Error()
+					}
+					size := `"` + path + `" input "toolong", explain: it is more than 3 str-length`
+					unknown := `"` + path + `" valid "` + name + `" is not exist, You can call SetValidFn`
+					if !strings.Contains(path, ".") {
+						unknown = `valid "` + name + `" is not exist, You can call SetValidFn`
+					}
+					steps := []struct{ what, got, want string }{}
+					steps = append(steps, struct{ what, got, want string }{"before registration", call(nil), unknown + "; " + size})
+					valid.SetCustomerValidFn(name, mkFn("global-"+name))
+					steps = append(steps, struct{ what, got, want string }{"after registration", call(nil), `"` + path + `" input "toolong", explain: global-` + name + "; " + size})
+					if perCallToo {
+						steps = append(steps, struct{ what, got, want string }{"per-call definition wins", call(valid.Name2FnMap{name: mkFn("call-" + name)}), `"` + path + `" input "toolong", explain: call-` + name + "; " + size})
+					}
+					// the name is registered again with another function: the table as it is at call time decides
+					valid.SetCustomerValidFn(name, mkFn("global2-"+name))
+					steps = append(steps, struct{ what, got, want string }{"after re-registration", call(nil), `"` + path + `" input "toolong", explain: global2-` + name + "; " + size})
+					c.Done(true, len(steps))
+					for _, st := range steps {
+						if st.got != st.want {
+							c.Violation("late-registration/"+strings.ReplaceAll(st.what, " ", "-"), map[string]interface{}{"rule_name": name, "via_tag": viaTag, "nested": nested, "one_function_table_object_for_all_calls": sharedFns, "step": st.what, "expected": st.want, "actual": st.got})
+							break
+						}
+					}
+					if len(shared) != 1 || shared["unrelated_fn"] == nil {
+						c.Violation("late-registration/callers-function-table-modified", map[string]interface{}{"rule_name": name, "keys_now": len(shared)})
 					}
 				}
 			}
@@ -849,7 +862,7 @@ func explainParts(e string) string {
 // a later call that passes the first set alone: it is judged by exactly what that set holds, and the caller's maps are
 // the caller's.
 func repeatedSetRule(c *runner.Ctx) {
-	c.Space(c.Mode + ":rule-set-reused-after-a-call-with-two-sets")
+	c.Space(c.Mode + "(round 12: late registration also with one function-table object - holding an unrelated name - handed to every call; an unscoped rule set over a collection of equal structs, first call or right after a call refused before any walk: equal elements are judged alike) :rule-set-reused-after-a-call-with-two-sets")
 	bases := []map[string]string{{"Name": "eq=4|base-name"}, {"Next": "required|base-next"}, {}}
 	extras := []map[string]string{{"Name": "eq=5|extra-name"}, {"Children": "required|extra-children", "Name": "to=1~2|extra-name2"}, {"Next": "required|extra-next"}}
 	names := []string{"", "abcd", "abcde", "abcdefghijklm"}
@@ -968,4 +981,94 @@ func main() {
 		Run:         run,
 		Modes:       []runner.Mode{{Name: "g"}, {Name: "gp"}, {Name: "gz"}, {Name: "gpz"}, {Name: "gpzL", Workers: 8}},
 	})
+}
+
+// unscopedOverCollections (round 12): an unscoped rule set handed over with a *collection* of structs as the top-level
+// value. Whether the elements count as "the outermost struct" is not specified (DESIGN §7) - but whatever the answer is,
+// it is the same for every element: equal elements at different positions are judged alike, whether the call is the
+// first one of the process or follows a call that was refused before any walk (no struct / nil / typed nil).
+func unscopedOverCollections(c *runner.Ctx) {
+	c.Space(c.Mode + ":unscoped-rule-set-over-a-collection-of-equal-structs")
+	rms := []map[string]string{{"Name": "eq=4|unscoped-name"}, {"Name": "required|unscoped-name", "Next": "required|unscoped-next"}, {"Children": "required|unscoped-children"}, {}}
+	names := []string{"", "abcd", "abcdefghijklm"}
+	histories := []string{"none", "Struct(&int)", "Struct(string, rm)", "Struct(nil)", "Struct((*Node)(nil), rm)", "NewVStruct().SetRule(rm).Valid(5)"}
+	shapes := []string{"[]*Node x2", "[]*Node x3", "[2]Node", "[]Node x2", "*[]*Node x2", "map[string]*Node x2"}
+	for _, rmSrc := range rms {
+		for _, nm := range names {
+			for _, h := range histories {
+				for _, sh := range shapes {
+					if !c.Take() {
+						continue
+					}
+					mk := func() *Node { return &Node{Name: nm, Next: &Node{Name: nm}} }
+					var top interface{}
+					n := 2
+					switch sh {
+					case "[]*Node x2":
+						top = []*Node{mk(), mk()}
+					case "[]*Node x3":
+						top, n = []*Node{mk(), mk(), mk()}, 3
+					case "[2]Node":
+						top = [2]Node{*mk(), *mk()}
+					case "[]Node x2":
+						top = []Node{*mk(), *mk()}
+					case "*[]*Node x2":
+						s := []*Node{mk(), mk()}
+						top = &s
+					default:
+						top = map[string]*Node{"0": mk(), "1": mk()}
+					}
+					var err error
+					pan, msg, site := runner.Guard(func() {
+						switch h {
+						case "Struct(&int)":
+							k := 5
+							_ = valid.Struct(&k)
+						case "Struct(string, rm)":
+							_ = valid.Struct("abc", toRM(rmSrc))
+						case "Struct(nil)":
+							_ = valid.Struct(nil)
+						case "Struct((*Node)(nil), rm)":
+							_ = valid.Struct((*Node)(nil), toRM(rmSrc))
+						case "NewVStruct().SetRule(rm).Valid(5)":
+							_ = valid.NewVStruct().SetRule(toRM(rmSrc)).Valid(5)
+						}
+						err = valid.Struct(top, toRM(rmSrc))
+					})
+					c.Done(h != "none", 2)
+					got := ""
+					if err != nil {
+						got = err.Error()
+					}
+					det := map[string]interface{}{"rules": rmSrc, "name": nm, "call_before": h, "value": sh, "error": got}
+					if pan {
+						det["panic"] = msg
+						c.Violation("panic@"+site, det)
+						continue
+					}
+					// clauses per element, positions made anonymous
+					per := make([][]string, n)
+					for _, cl := range strings.Split(got, "; ") {
+						for i := 0; i < n; i++ {
+							idx := fmt.Sprintf("[%d]", i)
+							if k := strings.Index(cl, idx); k >= 0 && k < strings.Index(cl+" input", " input") {
+								per[i] = append(per[i], strings.Replace(cl, idx, "[i]", 1))
+								break
+							}
+						}
+					}
+					for i := 1; i < n; i++ {
+						a, b := append([]string{}, per[0]...), append([]string{}, per[i]...)
+						sort.Strings(a)
+						sort.Strings(b)
+						if strings.Join(a, "; ") != strings.Join(b, "; ") {
+							det["element_0"], det[fmt.Sprintf("element_%d", i)] = a, b
+							c.Violation("unscoped-over-collection/equal-elements-judged-differently", det)
+							break
+						}
+					}
+				}
+			}
+		}
+	}
 }
